@@ -284,6 +284,13 @@ def frames_of(e):
 
 
 def loop_index_name(fi, Q):
+    # the index is the local the queue is subscripted with inside the service loop (`queue[idx]`, `queue.pop(idx)`), however the loop test is spelled
+    for n in walk_no_nested(fi.node):
+        if isinstance(n, ast.Subscript) and self_attr(n.value) == Q and isinstance(n.slice, ast.Name):
+            return n.slice.id
+        if isinstance(n, ast.Call) and isinstance(n.func, ast.Attribute) and n.func.attr == 'pop' and self_attr(n.func.value) == Q and n.args \
+                and isinstance(n.args[0], ast.Name):
+            return n.args[0].id
     for n in walk_no_nested(fi.node):
         if isinstance(n, ast.While) and isinstance(n.test, ast.Compare) and isinstance(n.test.left, ast.Name):
             c = n.test.comparators[0]
@@ -305,6 +312,9 @@ def tested_triggered(pa, i) -> bool:
             return False
         if e.kind == 'cond' and not e.d.get('synthetic') and e.text.endswith('.triggered') and e.polarity:
             return True
+        if e.kind == 'cond' and not e.d.get('synthetic') and e.polarity and any(isinstance(v, tuple) and len(v) == 3 and v[0] == 'attr' and v[2] == 'triggered'
+                                                                                for v in (e.d.get('reads') or ())):
+            return True         # the test reads `<request>.triggered` through a local
     return False
 
 
